@@ -15,12 +15,6 @@ structure C10State where
   keys : List (Nat × List HVer) := []      -- key id ↦ versions newest first (commit order); keys ascending
   seq : Nat := 0
 
-/-- the versions of a key by timestamp, newest first (commit order breaks ties): the order of the version index -/
-def insTs (v : HVer) : List HVer → List HVer
-  | [] => [v]
-  | x :: xs => if v.ts > x.ts || (v.ts == x.ts && v.seq > x.seq) then v :: x :: xs else x :: insTs v xs
-def sortTs (l : List HVer) : List HVer := l.foldr insTs []
-
 def c10Add (st : C10State) (k : Nat) (kind : VKind) (ts val : Nat) : C10State :=
   let seq := st.seq + 1
   let v : HVer := ⟨seq, kind, ts, val⟩
